@@ -30,7 +30,8 @@ class Memo:
         self.removals: list[ast.AST] = []
         self.eval_calls: list[ast.Call] = []
         for n in own_nodes(func):
-            if isinstance(n, ast.Assign) and len(n.targets) == 1 and self.is_memo_sub(n.targets[0]):
+            if isinstance(n, ast.Assign) and sum(self.is_memo_sub(t) for t in n.targets) == 1 \
+                    and all(self.is_memo_sub(t) or isinstance(t, ast.Name) for t in n.targets):  # `value = data[index] = ...` too
                 if isinstance(n.value, ast.Name) and n.value.id == "PENDING":
                     self.sentinel_stores.append(n)
                 else:
@@ -48,7 +49,7 @@ class Memo:
 
     def key_of(self, node: ast.AST) -> str | None:
         if isinstance(node, ast.Assign):
-            return norm(node.targets[0].slice)
+            return norm(next(t for t in node.targets if self.is_memo_sub(t)).slice)
         if isinstance(node, ast.Expr) and isinstance(node.value, ast.Call):
             c = node.value
             return norm(c.args[0]) if c.args else None
@@ -178,13 +179,19 @@ def rule_typestate(rep: Report, repo: Repo):
     # T4: every load of memo[key] is the PENDING test itself or dominated by its negative edge
     pend_tests = []
     # local aliases of a memo element: `value = memo[key]` (single assignment); the alias is treated like the load
+    # (`value = memo[key]`, or `value = memo[key] = <evaluated>`: the element just stored); every store of the name is of that kind
     aliases = {}
+    cand = {}
     for n in own_nodes(func):
-        if isinstance(n, ast.Assign) and len(n.targets) == 1 and isinstance(n.targets[0], ast.Name) and memo.is_memo_sub(n.value):
-            nm = n.targets[0].id
-            stores = [x for x in own_nodes(func) if isinstance(x, ast.Name) and x.id == nm and isinstance(x.ctx, ast.Store)]
-            if len(stores) == 1:
-                aliases[nm] = n
+        if isinstance(n, ast.Assign) and all(isinstance(t, ast.Name) or memo.is_memo_sub(t) for t in n.targets):
+            names = [t.id for t in n.targets if isinstance(t, ast.Name)]
+            if names and (memo.is_memo_sub(n.value) or any(memo.is_memo_sub(t) for t in n.targets)):
+                for nm in names:
+                    cand.setdefault(nm, []).append(n)
+    for nm, asg in cand.items():
+        stores = [x for x in own_nodes(func) if isinstance(x, ast.Name) and x.id == nm and isinstance(x.ctx, ast.Store)]
+        if len(stores) == len(asg):
+            aliases[nm] = asg
     is_alias = lambda e: isinstance(e, ast.Name) and e.id in aliases
     for n in g.nodes:
         if n.kind == "test" and isinstance(n.ast, ast.Compare) and len(n.ast.ops) == 1:
@@ -211,7 +218,7 @@ def rule_typestate(rep: Report, repo: Repo):
     n_loads = 0
     for n in own_nodes(func):
         if (memo.is_memo_sub(n) or is_alias(n)) and isinstance(n.ctx, ast.Load):
-            if any(getattr(n, "_parent", None) is a for a in aliases.values()):
+            if any(getattr(n, "_parent", None) is a for al in aliases.values() for a in al):
                 continue  # the aliasing assignment itself: its uses are checked through the alias name
             stmt = n
             while not isinstance(stmt, (ast.stmt,)) and not any(x.ast is stmt for x in g.nodes):
@@ -255,7 +262,7 @@ def rule_memo_owner(rep: Report, repo: Repo):
             inst = f"{mod}::{cname}.{fname} T5 access `{norm(node._parent)[:60]}` ({use})"
             if inside:
                 if fname == "pop":
-                    rep.check(use == "pop", RULE, inst, "BlockSeries.pop only removes", where)
+                    rep.check(use in ("pop", "alias"), RULE, inst, "BlockSeries.pop only removes (a local alias is followed by the body check)", where)
                 elif fname == "__contains__":
                     rep.check(use == "read", RULE, inst, "__contains__ only reads", where)
                 elif fname == "__init__":
@@ -301,10 +308,12 @@ def rule_memo_owner(rep: Report, repo: Repo):
     rep.check(ok, RULE, f"series::BlockSeries.__init__ T6 `{norm(stores[0])}` stores a copy",
               "the caller's `data` dict must not be aliased by the memo", repo.loc("series", stores[0]))
     popf = repo.find("series::BlockSeries::pop", RULE)
-    body = [s for s in popf.body if not (isinstance(s, ast.Expr) and isinstance(s.value, ast.Constant))]
-    ok = len(body) == 1 and isinstance(body[0], ast.Return) and isinstance(body[0].value, ast.Call) \
-        and dotted(body[0].value.func) == f"self.{MEMO_ATTR}.pop"
-    rep.check(ok, RULE, "series::BlockSeries.pop T5 body is a single removal", norm(body[0]) if body else "", repo.loc("series", popf))
+    from .sem import outcomes as _oc
+    paths = _oc(popf.body, None, env={}, expand=False)
+    ok = len(paths) == 1 and paths[0].kind == "return" and isinstance(paths[0].value, ast.Call) \
+        and dotted(paths[0].value.func) == f"self.{MEMO_ATTR}.pop" and not paths[0].events
+    rep.check(ok, RULE, "series::BlockSeries.pop T5 body is a single removal", norm(paths[0].value)[:80] if paths and paths[0].value is not None else "",
+              repo.loc("series", popf))
 
 
 def _all_arms_fresh(value: ast.AST, params: set[str]) -> bool:
